@@ -162,7 +162,13 @@ func RunCase(d *Def, c *Case) Res {
 
 func runCaseWatched(d *Def, c *Case) Res {
 	ch := make(chan Res, 1)
-	go func() { ch <- runCase(d, c) }()
+	go func() {
+		if c.Comp == "help" {
+			ch <- RunHelpCase(d, c.HN)
+		} else {
+			ch <- runCase(d, c)
+		}
+	}()
 	select {
 	case r := <-ch:
 		return r
@@ -174,7 +180,7 @@ func runCaseWatched(d *Def, c *Case) Res {
 }
 
 func emptyRes(cfg *Cfg) Res {
-	r := Res{Err: emptyErr(), DReq: emptyErr(), Rest: []Tok{}, RestNil: true, Warn: []Tok{}, Ran: []RanRes{}, Comps: []Tok{}, Exits: []int{}}
+	r := Res{Err: emptyErr(), DReq: emptyErr(), Rest: []Tok{}, RestNil: true, Warn: []Tok{}, Ran: []RanRes{}, Comps: []Tok{}, Exits: []int{}, Help: emptyDoc()}
 	r.Vals = make([]interface{}, len(cfg.Opts))
 	r.Called = make([]bool, len(cfg.Opts))
 	r.As = make([]Tok, len(cfg.Opts))
